@@ -643,6 +643,34 @@ def _bytes_hex(it, self, args, kw):
     return _s().hex_of(it, self)
 
 
+@handler("bytes.strip", "bytes.lstrip", "bytes.rstrip")
+def _bytes_strip(it, self, args, kw):
+    """b.strip(): concrete when b is; otherwise an uninterpreted function with the laws `no longer than b` and
+    `identity on a string that neither starts nor ends with ASCII whitespace` (default argument only)."""
+    if self.conc is not None and not args:
+        return VBytes(self.conc.strip())
+    if args:
+        raise OutOfSubset("bytes.strip(chars)")
+    F = z3.Function("BYTES_STRIP", BSort, BSort)
+    t = F(self.e)
+    n = z3.Length(self.e)
+    ws = lambda x: z3.Or(x == 32, z3.And(x >= 9, x <= 13))
+    it.assume(z3.Length(t) <= n)
+    it.assume(z3.Implies(z3.Or(n == 0, z3.And(z3.Not(ws(self.e[0])), z3.Not(ws(self.e[n - 1])))), t == self.e))
+    it.assume(z3.Implies(z3.And(n > 0, z3.Or(ws(self.e[0]), ws(self.e[n - 1]))), z3.Length(t) < n))
+    return VBytes(t)
+
+
+@handler("str.lstrip", "str.rstrip")
+def _str_lrstrip(it, self, args, kw):
+    if self.conc is not None and all(a.conc is not None for a in args):
+        return VStr(self.conc.strip(*[a.conc for a in args]))  # over-approximated by the two-sided strip below when symbolic
+    F = z3.Function("STR_LRSTRIP", S, S)
+    t = F(self.e)
+    it.assume(z3.Length(t) <= z3.Length(self.e))
+    return VStr(t)
+
+
 @handler("bytes.fromhex")
 def _bytes_fromhex(it, self, args, kw):
     v = args[0]
